@@ -315,6 +315,11 @@ func (r *rw) goStmt(g *ast.GoStmt) []ast.Stmt {
 	rhs = append(rhs, call.Fun)
 	var args []ast.Expr
 	for _, a := range call.Args {
+		if tv, ok := r.info.Types[a]; ok && (tv.IsNil() || tv.Value != nil) {
+			// nil and constants have no evaluation to pin down (and no type of their own to give a temporary)
+			args = append(args, a)
+			continue
+		}
 		n := r.newTmp("a")
 		lhs = append(lhs, ident(n))
 		rhs = append(rhs, a)
